@@ -182,6 +182,8 @@ impl SlabRouter {
                         // Dimension mismatch - store in metadata only (this is fine)
                     }
                 }
+                #[cfg(neumann_verif)]
+                crate::verif_hooks::yield_point("store.emb.put");
                 // Also store metadata (always includes the embedding for retrieval)
                 self.metadata.set(key, value);
                 Ok(())
@@ -221,6 +223,8 @@ impl SlabRouter {
             KeyClass::Embedding => {
                 if let Some(entity_id) = self.index.get(key) {
                     if let Some(vector) = self.embeddings.get(entity_id) {
+                        #[cfg(neumann_verif)]
+                        crate::verif_hooks::yield_point("store.emb.get");
                         let mut data = self.metadata.get(key).unwrap_or_default();
                         data.set("_embedding", TensorValue::Vector(vector));
                         return Ok(data);
@@ -259,6 +263,8 @@ impl SlabRouter {
                 if let Some(entity_id) = self.index.get(key) {
                     self.embeddings.delete(entity_id);
                 }
+                #[cfg(neumann_verif)]
+                crate::verif_hooks::yield_point("store.emb.del");
                 self.index.remove(key);
                 self.metadata.delete(key);
                 Ok(())
@@ -493,6 +499,8 @@ impl SlabRouter {
             })
             .map_err(|e| SlabRouterError::WalError(format!("Failed to log put: {e}")))?;
         }
+        #[cfg(neumann_verif)]
+        crate::verif_hooks::yield_point("store.durable.logged");
 
         // Apply to in-memory state
         self.put(key, value)
@@ -525,6 +533,8 @@ impl SlabRouter {
             })
             .map_err(|e| SlabRouterError::WalError(format!("Failed to log delete: {e}")))?;
         }
+        #[cfg(neumann_verif)]
+        crate::verif_hooks::yield_point("store.durable.logged");
 
         // Apply to in-memory state
         self.delete(key)
